@@ -214,4 +214,135 @@ mod harness {
             }
         }
     }
+
+    // ------------------------------------------------------------------------------------------------------------
+    // T1 guard (DESIGN §5): the ASSUMED contracts of cosmwasm_std::Uint128 / Timestamp in /verif/shim/base.rs are
+    // compared here with the compiled REAL dependency crate, over the full operand domain (loop-free => complete).
+    // Each assertion is the shim's `ensures` clause, with Verus' mathematical `+ - *` written as native checked u128
+    // arithmetic (None = the mathematical result does not fit 128 bits).
+    // ------------------------------------------------------------------------------------------------------------
+    fn any_u() -> (u128, Uint128) {
+        let v: u128 = kani::any();
+        (v, Uint128::new(v))
+    }
+
+    #[kani::proof]
+    #[kani::stub(<Uint128 as std::string::ToString>::to_string, stub_to_string)]
+    fn t1_uint128_checked_add_sub() {
+        let (a, ua) = any_u();
+        let (b, ub) = any_u();
+        // shim: r is Ok <==> a + b <= MAX ; Ok ==> value == a + b
+        match ua.checked_add(ub) {
+            Ok(r) => assert!(a.checked_add(b) == Some(r.u128())),
+            Err(_) => assert!(a.checked_add(b).is_none()),
+        }
+        // shim: r is Ok <==> a >= b ; Ok ==> value == a - b
+        match ua.checked_sub(ub) {
+            Ok(r) => assert!(a >= b && r.u128() == a - b),
+            Err(_) => assert!(a < b),
+        }
+        kani::cover!(ua.checked_add(ub).is_err());
+        kani::cover!(ua.checked_sub(ub).is_ok());
+    }
+
+    #[kani::proof]
+    #[kani::stub(<Uint128 as std::string::ToString>::to_string, stub_to_string)]
+    fn t1_uint128_checked_mul() {
+        let (a, ua) = any_u();
+        let (b, ub) = any_u();
+        match ua.checked_mul(ub) {
+            Ok(r) => assert!(a.checked_mul(b) == Some(r.u128())),
+            Err(_) => assert!(a.checked_mul(b).is_none()),
+        }
+    }
+
+    // checked_div / checked_rem / `/` / `%` and Timestamp (u64 nanoseconds divided by 10^9): CBMC's divider circuits do not terminate
+    // here even when the harness only states "same as the native operator"; those contracts are guarded by the conformance TEST
+    // replay/tests/t01_uint128_div_timestamp_conformance.rs on a boundary grid (a test, not a proof; they stay assumptions).
+
+    #[kani::proof]
+    fn t1_uint128_total_functions() {
+        let (a, ua) = any_u();
+        let (b, ub) = any_u();
+        assert!(Uint128::zero().u128() == 0);
+        assert!(ua.u128() == a);
+        assert!(ua.is_zero() == (a == 0));
+        assert!(Uint128::MAX.u128() == u128::MAX);
+        assert!(ua.saturating_sub(ub).u128() == if a >= b { a - b } else { 0 });
+        assert!(ua.saturating_add(ub).u128() == match a.checked_add(b) { Some(s) => s, None => u128::MAX });
+        assert!(ua.abs_diff(ub).u128() == if a >= b { a - b } else { b - a });
+        assert!(ua.min(ub).u128() == if a <= b { a } else { b });
+        assert!(ua.max(ub).u128() == if a >= b { a } else { b });
+        assert!((ua.cmp(&ub) == std::cmp::Ordering::Less) == (a < b));
+        assert!((ua.cmp(&ub) == std::cmp::Ordering::Equal) == (a == b));
+        assert!((ua.cmp(&ub) == std::cmp::Ordering::Greater) == (a > b));
+        assert!(ua.partial_cmp(&ub) == Some(ua.cmp(&ub)));
+        assert!((ua == ub) == (a == b));
+        assert!((ua < ub) == (a < b) && (ua <= ub) == (a <= b) && (ua > ub) == (a > b) && (ua >= ub) == (a >= b));
+        let w: u64 = kani::any();
+        assert!(Uint128::from(w).u128() == w as u128);
+        let x: u32 = kani::any();
+        assert!(Uint128::from(x).u128() == x as u128);
+        let y: u16 = kani::any();
+        assert!(Uint128::from(y).u128() == y as u128);
+        let z: u8 = kani::any();
+        assert!(Uint128::from(z).u128() == z as u128);
+        assert!(Uint128::from(a).u128() == a);
+        let back: u128 = ua.into();
+        assert!(back == a);
+    }
+
+    /// operators: when the mathematical result fits (divisor non-zero) they return it (the shim's `*_spec`)
+    #[kani::proof]
+    fn t1_uint128_operators_value() {
+        let (a, ua) = any_u();
+        let (b, ub) = any_u();
+        if let Some(s) = a.checked_add(b) {
+            assert!((ua + ub).u128() == s);
+            let mut c = ua;
+            c += ub;
+            assert!(c.u128() == s);
+        }
+        if a >= b {
+            assert!((ua - ub).u128() == a - b);
+            let mut c = ua;
+            c -= ub;
+            assert!(c.u128() == a - b);
+        }
+    }
+
+    #[kani::proof]
+    fn t1_uint128_operator_mul_value() {
+        let (a, ua) = any_u();
+        let (b, ub) = any_u();
+        if let Some(s) = a.checked_mul(b) {
+            assert!((ua * ub).u128() == s);
+        }
+    }
+
+    /// operators: outside that domain they never return (the shim's partial-mode `ensures in-range` / total-mode `*_req`)
+    #[kani::proof]
+    #[kani::should_panic]
+    fn t1_uint128_add_overflow_panics() {
+        let (a, ua) = any_u();
+        let (b, ub) = any_u();
+        kani::assume(a.checked_add(b).is_none());
+        let _ = ua + ub;
+    }
+
+    #[kani::proof]
+    #[kani::should_panic]
+    fn t1_uint128_sub_underflow_panics() {
+        let (a, ua) = any_u();
+        let (b, ub) = any_u();
+        kani::assume(a < b);
+        let _ = ua - ub;
+    }
+
+    #[kani::proof]
+    #[kani::should_panic]
+    fn t1_uint128_div_by_zero_panics() {
+        let (_, ua) = any_u();
+        let _ = ua / Uint128::zero();
+    }
 }
